@@ -12,7 +12,8 @@ LEVEL = "exploration"
 RULE = ("programs: slot programs with several pending categories (list, `in`, sub-snapshots, dataclass, separate sites), atoms incl. "
         "HasRepr values, failing / raising tests, multi-file projects x all 16 category subsets; each case = run_inline + "
         "run_pytest + a real pytest session (forked pytest.main; the fork server itself is compared with cold `python -m pytest` "
-        "on a slice); non-trivial = at least one file changed in the real session and all three drivers agree; distinct = (program, subset)")
+        "on a slice); non-trivial = at least one file changed in the real session and all three drivers agree; distinct = (program, subset)"
+        "; plus the second real session in one directory (bytecode cache on) against run_inline on the files the first one left")
 ASSUMPTIONS = ["projects do not use externals (property scope)", "run_pytest and the real session get the flags plus `report` so that the category sections can be read"]
 TASK_TIMEOUT = 1200
 CATS = ("create", "fix", "trim", "update")
